@@ -14,6 +14,13 @@ that fact on the parsed trees and are skipped when it does not hold.
 
   if C: raise AssertionError(m)     ==>          assert not C, m    (no else arm)
 
+  f(a, 0, b"")                      ==>          f(a)               (trailing arguments that repeat the literal default of
+                                                                     their parameter; same callee resolution as below)
+
+  if c: ..; x = X1  else: ..; x = X2              if c: ..; f(X1)  else: ..; f(X2)
+  f(x)                              ==>           (x a local assigned last in both arms and used nowhere else:
+                                                   the consumer statement is sunk into the arms)
+
   f(a, p2=b, p3=c)                  ==>          f(a, b, c)         (callee resolved by a name that has one signature
                                                                      in the repository; keywords must name exactly the
                                                                      next positional parameters)
@@ -66,6 +73,29 @@ def _negate(t: ast.AST) -> ast.AST:
     return ast.copy_location(ast.UnaryOp(op=ast.Not(), operand=t), t)
 
 
+def _movable(v: ast.AST) -> bool:
+    """a value whose evaluation can be moved to the consumer: literals, names, attribute chains, calls on such arguments"""
+    if isinstance(v, (ast.Constant, ast.Name)):
+        return True
+    if isinstance(v, ast.Attribute):
+        return _movable(v.value)
+    if isinstance(v, ast.Call):
+        return _movable(v.func) and all(_movable(a) for a in v.args) and all(k.arg is not None and _movable(k.value) for k in v.keywords)
+    if isinstance(v, (ast.Tuple, ast.List)):
+        return all(_movable(x) for x in v.elts)
+    return False
+
+
+class _Subst(ast.NodeTransformer):
+    def __init__(self, m: dict[str, ast.AST]) -> None:
+        self.m = m
+
+    def visit_Name(self, node: ast.Name):
+        if isinstance(node.ctx, ast.Load) and node.id in self.m:
+            return ast.copy_location(copy.deepcopy(self.m[node.id]), node)
+        return node
+
+
 class Signatures:
     """callable name -> positional parameter names, for names that denote one signature in the repository"""
 
@@ -78,10 +108,12 @@ class Signatures:
             if a.vararg or a.kwarg or a.kwonlyargs:
                 return None
             names = [x.arg for x in a.posonlyargs + a.args]
+            defaults: list[ast.AST | None] = [None] * (len(names) - len(a.defaults)) + list(a.defaults)
             static = any(isinstance(d, ast.Name) and d.id == "staticmethod" for d in fn.decorator_list)
             if method and not static:
-                names = names[1:]
-            return tuple(names)
+                names, defaults = names[1:], defaults[1:]
+            # (name, default literal or NODEFAULT) pairs; a non-literal default is recorded as such
+            return tuple((n_, ("const", repr(d.value)) if isinstance(d, ast.Constant) else (None if d is None else ("expr", ast.dump(d)))) for n_, d in zip(names, defaults))
 
         def visit(body: list[ast.stmt], cls: str | None) -> None:
             for st in body:
@@ -164,6 +196,7 @@ class Normaliser:
         out: list[ast.stmt] = []
         for st in body:
             out.extend(self.stmt(st))
+        out = self.sink_into_arms(out)
         # if C: ...; return V          if not C: raise E
         # raise E               ==>    ...; return V            (error exits are spelled as guards)
         if len(out) >= 2 and isinstance(out[-1], ast.Raise) and isinstance(out[-2], ast.If) and not out[-2].orelse \
@@ -174,6 +207,44 @@ class Normaliser:
             self.hit("return-then-raise->guard")
             out = out[:-2] + [guard] + list(g.body)
         return out
+
+    def sink_into_arms(self, stmts: list[ast.stmt]) -> list[ast.stmt]:
+        i = 0
+        while i + 1 < len(stmts):
+            g, s_ = stmts[i], stmts[i + 1]
+            if isinstance(g, ast.If) and g.body and g.orelse and isinstance(s_, ast.Expr) and isinstance(s_.value, ast.Call):
+                used = {x.id for x in ast.walk(s_) if isinstance(x, ast.Name) and isinstance(x.ctx, ast.Load)}
+
+                def tail_assigns(arm: list[ast.stmt]) -> dict[str, ast.AST]:
+                    got: dict[str, ast.AST] = {}
+                    for t in reversed(arm):
+                        if isinstance(t, ast.Assign) and len(t.targets) == 1 and isinstance(t.targets[0], ast.Name) and t.targets[0].id not in got \
+                                and _movable(t.value):
+                            got[t.targets[0].id] = t.value
+                        else:
+                            break
+                    return got
+                A, B = tail_assigns(g.body), tail_assigns(g.orelse)
+                V = (set(A) & set(B) & used)
+                rest = stmts[:i] + stmts[i + 2:]
+                elsewhere = {x.id for t in rest for x in ast.walk(t) if isinstance(x, ast.Name)}
+                inner = {x.id for arm, d in ((g.body, A), (g.orelse, B)) for t in arm[:len(arm) - len(d)] for x in ast.walk(t) if isinstance(x, ast.Name)}
+                inner |= {x.id for x in ast.walk(g.test) if isinstance(x, ast.Name)}
+                V = {v for v in V if v not in elsewhere and v not in inner}
+                # values must not mention another sunk variable
+                if V and not any(isinstance(x, ast.Name) and x.id in V for d in (A, B) for v in V for x in ast.walk(d[v])):
+                    for arm_name, d in (("body", A), ("orelse", B)):
+                        arm = getattr(g, arm_name)
+                        keep = [t for t in arm if not (isinstance(t, ast.Assign) and len(t.targets) == 1 and isinstance(t.targets[0], ast.Name)
+                                                       and t.targets[0].id in V and t.value is d.get(t.targets[0].id))]
+                        call = _Subst({v: d[v] for v in V}).visit(copy.deepcopy(s_))
+                        call.value = self.expr(call.value)   # (the substituted literals may now repeat a default)
+                        setattr(g, arm_name, keep + [ast.fix_missing_locations(call)])
+                    self.hit("consumer-sunk-into-arms")
+                    stmts = stmts[:i + 1] + stmts[i + 2:]
+                    continue
+            i += 1
+        return stmts
 
     def stmt(self, st: ast.stmt) -> list[ast.stmt]:
         # children first
@@ -323,11 +394,25 @@ class _Expr(ast.NodeTransformer):
             if sig is not None:
                 p = len(node.args)
                 kws = {k.arg: k.value for k in node.keywords}
-                nxt = sig[p:p + len(kws)]
+                nxt = [n_ for (n_, _d) in sig[p:p + len(kws)]]
                 if len(kws) == len(node.keywords) and set(nxt) == set(kws) and len(nxt) == len(kws):
                     node.args = list(node.args) + [kws[n_] for n_ in nxt]
                     node.keywords = []
                     self.n.hit("keywords->positional")
+        # f(a, 0, b"") where 0 and b"" are the literal defaults of the trailing parameters  ==>  f(a)
+        if not node.keywords and node.args and not any(isinstance(a, ast.Starred) for a in node.args):
+            name = f.attr if isinstance(f, ast.Attribute) else (f.id if isinstance(f, ast.Name) else None)
+            sig = self.n.sigs.table.get(name) if name else None
+            if sig is not None and len(node.args) <= len(sig):
+                while node.args:
+                    i = len(node.args) - 1
+                    d = sig[i][1]
+                    a = node.args[i]
+                    if d is not None and d[0] == "const" and isinstance(a, ast.Constant) and repr(a.value) == d[1]:
+                        node.args = node.args[:-1]
+                        self.n.hit("explicit-default-dropped")
+                    else:
+                        break
         return node
 
 
